@@ -44,7 +44,24 @@ pub fn families(prop: &str, tier: Tier) -> Vec<Cfg> {
             c.max_conns = 1;
             c.max_reqs = 2;
             c.dev = 2;
-            vec![a, b, c]
+            let mut v = vec![a, b, c];
+            if !q {
+                // packets with a two-byte remaining length
+                let mut d = Cfg::base("C01-two-byte-remaining-length");
+                d.props = vec!["C01"];
+                d.tx = 512;
+                d.payload_sizes = vec![2, 130];
+                d.pub_retain = vec![false, true];
+                d.ops = vec![OpK::Pub1, OpK::Pub0, OpK::Pub2, OpK::Poll, OpK::DropConn];
+                d.io = IoMenu::partial();
+                d.cancel = true;
+                d.max_ops = 5;
+                d.max_conns = 2;
+                d.max_reqs = 2;
+                d.dev = 2;
+                v.push(d);
+            }
+            v
         }
         "C02" => {
             // connection death at every I/O call, cancellation, ack orders, resumed reconnects
@@ -132,7 +149,7 @@ pub fn families(prop: &str, tier: Tier) -> Vec<Cfg> {
             a.io = IoMenu::partial();
             a.io.read_err = true;
             a.cancel = true;
-            a.broker.script = vec![inpub(2, 1), inpub(1, 65535), inpub(0, 0), inpub(2, 258)];
+            a.broker.script = vec![inpub(2, 1), inpub(1, 65535), inpub(0, 0), inpub_rich(1, 258), inpub(2, 258)];
             a.broker.dup_retransmit = true;
             a.broker.stale_acks = true;
             a.broker.may_lose_session = true;
@@ -162,6 +179,9 @@ pub fn families(prop: &str, tier: Tier) -> Vec<Cfg> {
             let mut a = Cfg::base("C05-handshake-variants");
             a.props = vec!["C05"];
             a.ops = vec![OpK::Pub1, OpK::Pub2, OpK::Sub, OpK::Unsub, OpK::Poll, OpK::DropConn];
+            if !q {
+                a.ops.push(OpK::Forget);
+            }
             a.io = IoMenu::faults_only();
             a.io.write_pending = true;
             a.io.read_pending = true;
@@ -193,6 +213,9 @@ pub fn families(prop: &str, tier: Tier) -> Vec<Cfg> {
                 a.cancel = true;
                 a.broker.receive_max = vec![rm];
                 a.broker.ack_fail = true;
+                if !q {
+                    a.pub_retain = vec![false, true];
+                }
                 a.max_ops = if q { 7 } else { 9 };
                 a.max_conns = 2;
                 a.max_reqs = if q { 3 } else { 4 };
@@ -540,6 +563,24 @@ pub fn families(prop: &str, tier: Tier) -> Vec<Cfg> {
             vec![a, b]
         }
         _ => vec![],
+    }
+}
+
+/// An inbound publish with the RETAIN flag, a longer topic and several properties.
+pub fn inpub_rich(qos: u8, pid: u16) -> InPub {
+    use crate::mqtt_ref::{PVal, Prop};
+    InPub {
+        qos,
+        pid,
+        retain: true,
+        topic: "in/\u{e9}",
+        payload: vec![0xC0 | qos, pid as u8, 0, 255],
+        props: vec![
+            Prop { id: 0x26, val: PVal::Pair(b"k".to_vec(), b"v".to_vec()) },
+            Prop { id: 0x0B, val: PVal::Var(300) },
+            Prop { id: 0x08, val: PVal::Str(b"r/t".to_vec()) },
+            Prop { id: 0x26, val: PVal::Pair(b"k".to_vec(), b"w".to_vec()) },
+        ],
     }
 }
 
